@@ -104,6 +104,20 @@ impl<'ast> Visit<'ast> for Unpack {
     }
 }
 
+/// `encrypt_data(data: Bytes)`: a free fn whose only use of `data` is `encrypt(data)`
+fn encrypts_caller_bytes_free(f: &syn::ItemFn) -> Result<bool, String> {
+    let has_param = f.sig.inputs.iter().any(|a| match a {
+        syn::FnArg::Typed(t) => norm(&t.pat) == "data",
+        _ => false,
+    });
+    let b = norm(&f.block);
+    if has_param && b.contains("encrypt(data)?") && b.matches("data").count() == 1 {
+        Ok(true)
+    } else {
+        Err("client/external_signer.rs:encrypt_data: cannot tell that the caller's bytes reach encrypt unchanged".into())
+    }
+}
+
 /// Does `f` call `encrypt(data)` on its own parameter `data`, with no statement before that call that rebinds
 /// (`let data`, `let mut data`, a pattern binding `data`) or assigns (`data = ..`) it?
 fn encrypts_caller_bytes(f: &syn::ImplItemFn, what: &str) -> Result<bool, String> {
@@ -314,6 +328,99 @@ pub fn generate(repo: &PathBuf) -> Result<String, String> {
     let put_public = encrypts_caller_bytes(impl_fn(&data_pub, "Client", None, "data_put_public")?, &format!("{rel_public}:data_put_public"))?;
     let cost = encrypts_caller_bytes(impl_fn(&data_pub, "Client", None, "data_cost")?, &format!("{rel_public}:data_cost"))?;
 
+    // ---- every call of the repo's `encrypt` (and of `external_signer::encrypt_data`, which only forwards to it) in
+    // autonomi/src must be a listed site: (file, enclosing fn). An unlisted one is an entry point the theorems do not cover.
+    struct Sites {
+        stack: Vec<String>,
+        found: Vec<(String, String)>, // (enclosing fn, callee path)
+    }
+    impl<'ast> Visit<'ast> for Sites {
+        fn visit_item_fn(&mut self, f: &'ast syn::ItemFn) {
+            self.stack.push(f.sig.ident.to_string());
+            syn::visit::visit_item_fn(self, f);
+            self.stack.pop();
+        }
+        fn visit_impl_item_fn(&mut self, f: &'ast syn::ImplItemFn) {
+            self.stack.push(f.sig.ident.to_string());
+            syn::visit::visit_impl_item_fn(self, f);
+            self.stack.pop();
+        }
+        fn visit_expr_call(&mut self, c: &'ast syn::ExprCall) {
+            if let syn::Expr::Path(p) = &*c.func {
+                let path = norm(&p.path);
+                if ["encrypt", "self_encryption::encrypt", "crate::self_encryption::encrypt", "encrypt_data", "external_signer::encrypt_data"].contains(&path.as_str()) {
+                    self.found.push((self.stack.last().cloned().unwrap_or_default(), path));
+                }
+            }
+            syn::visit::visit_expr_call(self, c);
+        }
+    }
+    fn rs_files(dir: &std::path::Path, out: &mut Vec<PathBuf>) {
+        if let Ok(rd) = std::fs::read_dir(dir) {
+            let mut es: Vec<PathBuf> = rd.filter_map(|e| e.ok().map(|e| e.path())).collect();
+            es.sort();
+            for e in es {
+                if e.is_dir() {
+                    rs_files(&e, out);
+                } else if e.extension().map(|x| x == "rs").unwrap_or(false) {
+                    out.push(e);
+                }
+            }
+        }
+    }
+    let src_root = repo.join("autonomi/src");
+    let mut files = vec![];
+    rs_files(&src_root, &mut files);
+    let mut sites: Vec<(String, String, String)> = vec![];
+    for f in &files {
+        let rel = f.strip_prefix(&src_root).map_err(|e| e.to_string())?.to_string_lossy().to_string();
+        let parsed = parse_file(f)?;
+        let mut v = Sites { stack: vec![], found: vec![] };
+        v.visit_file(&parsed);
+        for (func, callee) in v.found {
+            sites.push((rel.clone(), func, callee));
+        }
+    }
+    sites.sort();
+    // (file, fn, callee, what it is)
+    let listed: [(&str, &str, &str); 9] = [
+        ("client/data/mod.rs", "data_put", "encrypt"),
+        ("client/data/public.rs", "data_cost", "encrypt"),
+        ("client/data/public.rs", "data_put_public", "encrypt"),
+        ("client/external_signer.rs", "encrypt_data", "encrypt"),
+        ("client/files/fs_public.rs", "file_cost", "crate::self_encryption::encrypt"),
+        ("client/wasm.rs", "encrypt", "encrypt_data"),
+        ("python.rs", "encrypt", "self_encryption::encrypt"),
+        ("self_encryption.rs", "encrypt", "self_encryption::encrypt"),
+        ("self_encryption.rs", "pack_data_map", "self_encryption::encrypt"),
+    ];
+    for (f, func, callee) in &sites {
+        if !listed.iter().any(|(a, b, c)| a == f && b == func && c == callee) {
+            return Err(format!("autonomi/src/{f}:{func}: unlisted call of `{callee}` — an entry point to self-encryption the theorems do not cover"));
+        }
+    }
+    for (a, b, c) in &listed {
+        if sites.iter().filter(|(f, func, callee)| f == a && func == b && callee == c).count() != 1 {
+            return Err(format!("autonomi/src/{a}:{b}: expected exactly one call of `{c}`"));
+        }
+    }
+    // the further sites hand on the bytes they were given, unchanged
+    let ext = parse_file(&src_root.join("client/external_signer.rs"))?;
+    let ext_ok = encrypts_caller_bytes_free(free_fn(&ext, "encrypt_data")?)?;
+    let fsp = parse_file(&src_root.join("client/files/fs_public.rs"))?;
+    let fc = norm(&impl_fn(&fsp, "Client", None, "file_cost")?.block);
+    let file_cost_ok = if fc.contains("letdata=tokio::fs::read(&path).await?;letfile_bytes=Bytes::from(data);") && fc.contains("crate::self_encryption::encrypt(file_bytes)?")
+        && fc.matches("file_bytes=").count() == 1 && !fc.contains("mutfile_bytes")
+    {
+        true
+    } else {
+        return Err("client/files/fs_public.rs:file_cost: cannot tell that the file's bytes reach encrypt unchanged".into());
+    };
+    // python.rs: `self_encryption` there is the third-party crate (the module has no `use crate::self_encryption`): the
+    // binding returns the bare `DataMap`, not the packed `DataMapLevel` chunk the client's reads expect
+    let py_src = std::fs::read_to_string(src_root.join("python.rs")).map_err(|e| e.to_string())?;
+    let python_bypasses = !py_src.contains("use crate::self_encryption") && !py_src.contains("crate::self_encryption::encrypt");
+
     // ---- what the put entry points upload: the argument of their single `upload_chunks_with_retries(..)` call
     struct UploadArgs(Vec<String>);
     impl<'ast> Visit<'ast> for UploadArgs {
@@ -411,6 +518,12 @@ pub fn generate(repo: &PathBuf) -> Result<String, String> {
     s.push_str(&format!("def dataPutEncryptsCallerBytes : Bool := {}\n", lean_bool(put_private)));
     s.push_str(&format!("def dataPutPublicEncryptsCallerBytes : Bool := {}\n", lean_bool(put_public)));
     s.push_str(&format!("def dataCostEncryptsCallerBytes : Bool := {}\n", lean_bool(cost)));
+    s.push_str("/-- every call of the repo's `encrypt` / `encrypt_data` in autonomi/src is one of these sites (an unlisted one makes the translation fail): (file, enclosing fn) -/\n");
+    s.push_str(&format!("def encryptCallSites : List (String × String) := [{}]\n", listed.iter().map(|(a, b, _)| format!("({a:?}, {b:?})")).collect::<Vec<_>>().join(", ")));
+    s.push_str("/-- `external_signer::encrypt_data` (also behind wasm `encryptData`) and `file_cost` hand the bytes they were given to `encrypt` unchanged -/\n");
+    s.push_str(&format!("def externalSignerEncryptsCallerBytes : Bool := {}\ndef fileCostEncryptsFileBytes : Bool := {}\n", lean_bool(ext_ok), lean_bool(file_cost_ok)));
+    s.push_str("/-- python.rs `encrypt` calls the third-party crate directly: no `pack_data_map`, the result is a bare `DataMap` (declared uncovered by the round-trip theorems; too-small inputs are rejected by the crate itself) -/\n");
+    s.push_str(&format!("def pythonEncryptBypassesPacking : Bool := {}\n", lean_bool(python_bypasses)));
     s.push_str("/-- what the put entry points hand to `upload_chunks_with_retries`: `data_put` all chunks `encrypt` returned; `data_put_public` all of them and the data-map chunk -/\n");
     s.push_str(&format!("def dataPutUploadsChunks : Bool := {}\n", lean_bool(put_uploads_chunks)));
     s.push_str(&format!("def dataPutPublicUploadsChunks : Bool := {}\n", lean_bool(public_uploads_chunks)));
